@@ -41,6 +41,13 @@ extra = {"C08": "yes: downloads after an abandoned earlier transfer on the same 
          "R6C08": "yes: application replies carrying options with a meaning of their own (Observe, Size2, Max-Age 0) in drivers and model",
          "R6C09": "yes: uploads whose final reply is large (leaves in Block2 blocks), carries options, or whose final block names a Block2 size; `AckKept` pins the Block1 acknowledgement across intercept_response under C09",
          "R6C12": "yes: path keys that differ only by a trailing / leading empty segment, by case, or by an undecodable segment next to its lossy rendering (model key sets and isolation driver)",
+         "R7C02": "yes: every option number the crate knows by name (and some it does not) with values shaped like its typed readings (leading zeros, over-long, empty), in datagrams encoded by hand",
+         "R7C15": "yes: request fields an operation must not look at are noise in every replayed / recorded call (acknowledgements carrying any token and ACK or RST type; registrations with any message id, type, query, payload)",
+         "R7C17": "yes (runner): a call into the code under test that does not return - the harness's watchdog ends the process (exit 3) after 20 s in one guarded call, the runner re-runs in breadcrumb mode and reports the vector as a violation",
+         "R7C20": "yes: requests the handler refuses or cannot answer on a key holding live state (jump beyond the reserve, ACK/RST-typed blocks, malformed block options) in the mixed driver; `RetainOk` reports state the specification keeps but the call dropped under C20",
+         "R8C01": "yes: messages at the default size limit with builder history that leaves nothing on the wire (options added and cleared, set to an empty list) through to_bytes(); a refusal of something that fits is reported under C01 too when no caller-chosen limit is involved",
+         "R8C05": "caught at once, by a strengthening made while the change was still being written: numbers beyond the registries' width (registered number + 2^16 .. 2^63) as rows of MC_Registry",
+         "R8C06": "yes: byte strings whose length would wrap in a narrower integer (255/256/512/65536 + 0..9) in the uint decoder's recorder",
          "R4C12": "yes: the two entry points of an exchange as separate steps with equal message ids on different endpoints (model MODE split, deferred responses in the mixed driver); a disturbed other key is reported under C12 in every branch",
          "C20": "yes: expiry under block-wise traffic on other keys (model `Other` now block-wise; driver scenario `expiry-traffic`)"}
 for d in sorted(glob.glob(os.path.join(ROOT, "seeded", "*", "meta.json"))):
